@@ -257,6 +257,10 @@ SHIFT_PROGS += [
     ("error-in-for-update", "var r;\ntry {\n  for (var i = 0; i < 2;\n      undefinedThing.prop) {\n    var y = 1;\n  }\n} catch (e) { r = [e.lineNumber, e.columnNumber]; }\nlog(r);", "undefinedThing.prop", "for (var i"),
     ("error-in-while-test-second-round", "var r; var n = 0;\ntry {\n  while (n++ < 1 ||\n      undefinedThing.prop) {\n    var y = 1;\n  }\n} catch (e) { r = [e.lineNumber, e.columnNumber]; }\nlog(r);", "undefinedThing.prop", "while (n++"),
     ("error-after-function-expression", "var r;\ntry {\n  var g = function () {\n    return 1;\n  };\n      undefinedThing.prop;\n} catch (e) { r = [e.lineNumber, e.columnNumber]; }\nlog(r);", "undefinedThing.prop"),
+    ("throw-after-multiline-comment", "var r;\ntry {\n  /* a comment\n     over two lines */ throw new Error('c');\n} catch (e) { r = [e.lineNumber, e.columnNumber]; }\nlog(r);", "throw new Error"),
+    ("runtime-error-after-multiline-comment", "var r;\ntry {\n  var a = 1; /* one\n two\n three */   undefinedThing.prop;\n} catch (e) { r = [e.lineNumber, e.columnNumber]; }\nlog(r);", "undefinedThing.prop"),
+    ("throw-in-callback-after-multiline-comment", "var r;\ntry {\n  [1].forEach(function () { /*\n*/ throw new RangeError('x'); });\n} catch (e) { r = [e.lineNumber, e.columnNumber]; }\nlog(r);", "throw new RangeError"),
+    ("throw-after-two-comments", "var r;\ntry {\n  /* a */ /* b\n c */ /* d */ throw new Error('c');\n} catch (e) { r = [e.lineNumber, e.columnNumber]; }\nlog(r);", "throw new Error"),
     ("rethrow-keeps-or-updates", "var r;\ntry {\n  try {\n    null.x;\n  } catch (e1) {\n        throw e1;\n  }\n} catch (e) { r = [e.lineNumber, e.columnNumber]; }\nlog(r);", "throw e1"),
 ]
 
